@@ -16,7 +16,7 @@ SPEC = dict(
     text="keeper_any_key, config_keeper_only_updatable, accepted_update_is_entitled, others_rejected, buffer_all_or_nothing, keeper_buffer, accepted_buffer_is_entitled, expired_never_applied — for all stores, callers, keys, flags, updatable sets and buffers; model tied to the real entrypoints (exact error code, exact written values, nothing else changed).",
     level_note="Known finding class 1 (MarketKeeperRoleNotEnabled): ensure_has_any_role([MARKET_KEEPER, MARKET_CONFIG_KEEPER]) propagates the error of the MARKET_KEEPER lookup, so in a store where that role is disabled or was never created a config keeper is rejected even for updatable keys; the 'may update' clause is proved under mk_status = Enabled and refuted otherwise (c20_mk_role_not_enabled_refuted); the safety clauses (only entitled callers are accepted, all-or-nothing, expiry) hold in every store. Not modelled: cluster restart (RESTART_ADMIN substitution, covered in C19's driver), the bit container behind the updatable sets (index -> bool), realloc/close of buffers. Trusted: Anchor's order (accounts, attribute, handler), mini runtime.",
     design_ref="DESIGN.md section 6, C20",
-    explanation="A case is one real instruction on a fresh ledger: role-table state x caller bits x updatable set (installed through the real set_market_config_updatable) x key/flag/buffer x signature x foreign market/buffer x expiry around the stubbed clock.",
+    explanation="A case is one real instruction on a fresh ledger: role-table state x caller bits x updatable set (grant/revoke history through the real set_market_config_updatable, each step checked: SetUpd) x key/flag/buffer x signature x foreign market/buffer x expiry around the stubbed clock.",
     trusted_base=["in-process mini runtime harness/src/g7rt.rs", "Anchor 0.31 constraint / access_control ordering", "translate/c16.py key and flag lists (validated by C16)"],
     rule="one case = one real instruction call with its complete relevant pre-state; distinct = distinct lines; all non-trivial",
 )
